@@ -27,9 +27,6 @@ func (obj Symbol) Readably(b []byte, p *Printer) []byte {
 	if len(obj) == 0 {
 		return append(b, '|', '|')
 	}
-	if obj[0] == ':' {
-		return append(b, p.caseName(string(obj))...)
-	}
 	for i, c := range []byte(obj) {
 		if needPipeMap[c] == 'x' {
 			if c == '/' && !strings.ContainsAny(string(obj), "0123456789") {
